@@ -14,6 +14,8 @@ pub use allocators::AllocatorSelector;
 
 /// Bump pointer allocator
 mod bumpallocator;
+#[cfg(feature = "verif")]
+pub(crate) use bumpallocator::VERIF_BLOCK_SIZE;
 pub use bumpallocator::BumpAllocator;
 pub use bumpallocator::BumpPointer;
 
